@@ -414,6 +414,45 @@ def source_side(ck, d):
     return len(cases)
 
 
+def memory_side(ck, d):
+    """identity-level correspondence of MemorySpace::add_photons with the model's append_active: no packet lost or duplicated on overflow"""
+    ok2, log2 = vf.ocaml_build(d, ["c01_model"], os.path.join(vf.VERIF, "ocaml/c01_mem_driver.ml"), "memmodel")
+    ok3, log3 = vf.cxx_build(os.path.join(vf.VERIF, "harness/c01/memspace_harness.cpp"), os.path.join(d, "memimpl"), openmp=False)
+    if not (ok2 and ok3):
+        ck.breaks.append("add_photons model/harness does not build:\n" + (log2 + log3)[-1500:])
+        return 0
+    cap = 200
+    m = re.search(r"#define\s+PHOTONBUFFER_SIZE\s+(\d+)", open(os.path.join(vf.REPO, "src", "PhotonBuffer.hpp")).read())
+    if m:
+        cap = int(m.group(1))
+    cases = [(0, 0), (0, 1), (0, cap), (cap - 1, 1), (cap - 1, 2), (1, cap), (1, cap - 1), (cap - 1, cap), (150, 120), (150, 50), (150, 49), (199 % cap, 200 % cap + 1)]
+    for _ in range(60 if ck.quick else 600):
+        cur = ck.rng.below(cap)
+        n = [ck.rng.below(cap + 1), cap - cur, cap - cur + 1 + ck.rng.below(cur + 1), max(0, cap - cur - 1)][ck.rng.below(4)]
+        cases.append((cur, min(n, cap)))
+    rci, outi = vf.run_lines([os.path.join(d, "memimpl")], "".join("A %d %d\n" % c for c in cases), timeout=300)
+    rcm, outm = vf.run_lines([os.path.join(d, "memmodel")], "".join("A %d %d %d\n" % (cap, c[0], c[1]) for c in cases), timeout=300)
+    bad = 0
+    for c, a, b in zip(cases, outi, outm):
+        if a == b:
+            continue
+        bad += 1
+        # oracle for the property on the real output: the multiset of tags after the call is the multiset before
+        tags = [int(x) for part in a.split("|")[2:4] for x in part.split()[1:]]
+        want = list(range(c[0])) + [1000 + i for i in range(c[1])]
+        if sorted(tags) != sorted(want):
+            lost = sorted(set(want) - set(tags))
+            dup = sorted(t for t in set(tags) if tags.count(t) > 1)
+            ck.violation("C01 (MemorySpace::add_photons): adding a local buffer of %d packets to an outgoing buffer that holds %d loses packets %s and duplicates packets %s "
+                         "(every packet must be in exactly one place)" % (c[1], c[0], lost[:6], dup[:6]), {"add_photons_case": list(c), "impl": a, "model": b}, key={"kind": "add_photons_identity"})
+        elif bad <= 3:
+            ck.breaks.append("add_photons: model and MemorySpace differ for (held %d, added %d): impl %r model %r" % (c[0], c[1], a[:300], b[:300]))
+    if rci != 0 or len(outi) != len(cases) or len(outm) != len(cases):
+        ck.breaks.append("add_photons harness/model failed (exit %d/%d, %d/%d of %d lines)" % (rci, rcm, len(outi), len(outm), len(cases)))
+    ck.coverage["add_photons"] = {"cases": len(cases), "mismatches": bad, "overflows": sum(1 for c in cases if c[0] + c[1] >= cap)}
+    return len(cases)
+
+
 def run(ck):
     res = guards(ck)
     if not ck.prove():
@@ -432,7 +471,7 @@ def run(ck):
         return
     exe = os.path.join(vf.REPOBUILD, "rundir", "CMacIonize")
     val = os.path.join(d, "validator")
-    nsrc = source_side(ck, d) or 0
+    nsrc = (source_side(ck, d) or 0) + memory_side(ck, d)
     cfgs = configs(ck.quick)
     if any(v["key"].get("kind") == "source_split" for v in ck.violations):
         # the request is not split exactly: whole-binary runs would only hang; a few are enough to show it end to end
@@ -497,6 +536,13 @@ def replay(ck, rp):
     okb, logb = vf.repo_ninja(["CMacIonize"])
     exe = os.path.join(vf.REPOBUILD, "rundir", "CMacIonize")
     r = rp["replay"]
+    if "add_photons_case" in r or "source_case" in r:
+        ck.quick = True
+        (memory_side if "add_photons_case" in r else source_side)(ck, d)
+        kind = "add_photons_identity" if "add_photons_case" in r else "source_split"
+        bad = [v for v in ck.violations if v["key"].get("kind") == kind]
+        print("REPLAY:", bad[0]["what"] if bad else "property holds on this input")
+        return 1 if bad else 0
     if "model_state" in r:
         res, err = regenerate()
         f = r["model_state"]
